@@ -55,6 +55,21 @@ def generate_source_code(docstring, parsed):
     if not rules:
         raise Exception('Expected one or more grammar rules.')
 
+    # Without a rule named "start" (here or in a grammar that we extend),
+    # parsing starts at the first rule that is not an ignored one.
+    inherited_start = None
+    ancestor = parsed.extends
+    while start_rule is None and inherited_start is None and ancestor is not None:
+        for stmt in ancestor.body:
+            if hasattr(stmt, 'name') and stmt.name.lower() == 'start':
+                inherited_start = f'_ctx.{ex.implementation_name(stmt.name)}'
+                break
+        ancestor = ancestor.extends
+
+    entry_rule = start_rule
+    if entry_rule is None and inherited_start is None:
+        entry_rule = next((x for x in rules if not x.is_ignored), rules[0])
+
     visited_names = set()
     for rule in rules:
         if rule.name is not None and rule.name.startswith('_'):
@@ -94,14 +109,14 @@ def generate_source_code(docstring, parsed):
         rules.append(ex.Rule('_ignored', None, ex.Skip(*refs), 'ignored'))
 
     if ignored or super_has_ignore:
-        # If we have a start rule, then update its expression to skip ahead past
-        # any leading ignored stuff.
-        if isinstance(start_rule, ex.Class):
-            first_rule = start_rule.members[0] if start_rule.members else None
+        # Update the expression of the rule that we start with to skip ahead
+        # past any leading ignored stuff.
+        if isinstance(entry_rule, ex.Class):
+            first_rule = entry_rule.members[0] if entry_rule.members else None
         else:
-            first_rule = start_rule
+            first_rule = entry_rule
 
-        if first_rule:
+        if first_rule and not first_rule.is_ignored:
             assert isinstance(first_rule, ex.Rule)
             impl_name = ex.implementation_name('_ignored')
             first_rule.expr = ex.Right(Ref(impl_name), first_rule.expr)
@@ -119,20 +134,10 @@ def generate_source_code(docstring, parsed):
     _update_local_references(rules)
     _update_rule_references(rules, parsed.extends)
 
-    if start_rule is not None:
-        start_name = ex.implementation_name(start_rule.name)
+    if entry_rule is not None:
+        start_name = ex.implementation_name(entry_rule.name)
     else:
-        start_name = None
-        ancestor = parsed.extends
-        while start_name is None and ancestor is not None:
-            for stmt in ancestor.body:
-                if hasattr(stmt, 'name') and stmt.name.lower() == 'start':
-                    start_name = f'_ctx.{ex.implementation_name(stmt.name)}'
-                    break
-            ancestor = ancestor.extends
-
-    if start_name is None:
-        start_name = ex.implementation_name(rules[0].name)
+        start_name = inherited_start
 
     if parsed.extends is None:
         out += Code(Template(_main_template).substitute(
